@@ -18,12 +18,23 @@ From Ont Require Import Lib.Bytes Model.StateDB Gen.StateDBSites.
       the broken tie.) *)
 Lemma snapshot_ret_spec n : snapshot_ret (Z.of_nat (S n)) = Z.of_nat n.
 Proof. unfold snapshot_ret. lia. Qed.
-Lemma revert_guard_spec idx len :
-  (revert_guard_lhs idx len >? revert_guard_rhs idx len)%Z = false <-> (idx < len)%Z.
-Proof. unfold revert_guard_lhs, revert_guard_rhs. rewrite Z.gtb_ltb, Z.ltb_ge. lia. Qed.
-Lemma discard_guard_spec idx len :
-  (discard_guard_lhs idx len >? discard_guard_rhs idx len)%Z = false <-> (idx < len)%Z.
-Proof. unfold discard_guard_lhs, discard_guard_rhs. rewrite Z.gtb_ltb, Z.ltb_ge. lia. Qed.
+Definition max_int64 : Z := 9223372036854775807.
+Lemma wrap_int64_small z : (- 9223372036854775808 <= z <= max_int64)%Z -> wrap_int64 z = z.
+Proof. unfold wrap_int64, max_int64. intro Hz. rewrite Z.mod_small by lia. lia. Qed.
+Lemma revert_guard_ok idx len :
+  (0 <= idx < len)%Z -> (idx < max_int64)%Z ->
+  (wrap_int64 (revert_guard_lhs idx len) >? revert_guard_rhs idx len)%Z = false.
+Proof.
+  intros H1 H2. unfold revert_guard_lhs, revert_guard_rhs. rewrite wrap_int64_small by (unfold max_int64 in *; lia).
+  rewrite Z.gtb_ltb, Z.ltb_ge. lia.
+Qed.
+Lemma discard_guard_ok idx len :
+  (0 <= idx < len)%Z -> (idx < max_int64)%Z ->
+  (wrap_int64 (discard_guard_lhs idx len) >? discard_guard_rhs idx len)%Z = false.
+Proof.
+  intros H1 H2. unfold discard_guard_lhs, discard_guard_rhs. rewrite wrap_int64_small by (unfold max_int64 in *; lia).
+  rewrite Z.gtb_ltb, Z.ltb_ge. lia.
+Qed.
 Lemma revert_index_spec idx len : revert_index idx len = idx. Proof. reflexivity. Qed.
 Lemma revert_keep_spec idx len : revert_keep idx len = idx. Proof. reflexivity. Qed.
 Lemma discard_keep_spec idx len : discard_keep idx len = idx. Proof. reflexivity. Qed.
@@ -290,78 +301,45 @@ Section Proofs.
   Qed.
 
   Theorem revert_result s id sn :
-    wf s -> nth_error (sd_snaps s) id = Some sn ->
+    wf s -> nth_error (sd_snaps s) id = Some sn -> (Z.of_nat id < max_int64)%Z ->
     step s (ORevert (Z.of_nat id)) =
     (mkSDB (sn_changes sn) (sn_suicided sn) (firstn (sn_logsSize sn) (sd_logs s)) (sn_refund sn)
            (firstn id (sd_snaps s)) (sd_err s), RUnit).
   Proof.
-    intros Hw Eid. pose proof (nth_error_lt _ _ _ Eid) as Hid.
+    intros Hw Eid Hmax. pose proof (nth_error_lt _ _ _ Eid) as Hid.
     pose proof (wf_logs_in_range _ _ _ Hw Eid) as Hn.
     simpl. unfold revert.
-    destruct (_ >? _)%Z eqn:G.
-    { exfalso. assert (G' : (revert_guard_lhs (Z.of_nat id) (Z.of_nat (length (sd_snaps s))) >?
-                             revert_guard_rhs (Z.of_nat id) (Z.of_nat (length (sd_snaps s))))%Z = false)
-        by (apply revert_guard_spec; lia). congruence. }
+    rewrite revert_guard_ok by lia.
     rewrite revert_index_spec, revert_keep_spec, go_index_nat, Eid.
     rewrite go_prefix_nat by lia. rewrite go_prefix_nat by exact Hn. reflexivity.
   Qed.
 
   Theorem revert_invalid_panics s idx :
-    (Z.of_nat (length (sd_snaps s)) <= idx)%Z -> step s (ORevert idx) = (s, RPanic).
+    (Z.of_nat (length (sd_snaps s)) <= idx < max_int64)%Z -> step s (ORevert idx) = (s, RPanic).
   Proof.
-    intro Hge. simpl. unfold revert. destruct (_ >? _)%Z eqn:G; [reflexivity|].
-    apply revert_guard_spec in G. lia.
+    intro Hge. simpl. unfold revert. destruct (_ >? _)%Z eqn:G; [reflexivity|]. exfalso.
+    unfold revert_guard_lhs, revert_guard_rhs in G.
+    rewrite wrap_int64_small in G by (unfold max_int64 in *; lia).
+    rewrite Z.gtb_ltb in G. apply Z.ltb_ge in G. lia.
   Qed.
 
   Theorem discard_result s id :
-    (id < length (sd_snaps s))%nat ->
+    (id < length (sd_snaps s))%nat -> (Z.of_nat id < max_int64)%Z ->
     step s (ODiscard (Z.of_nat id)) =
     (mkSDB (sd_mem s) (sd_suicided s) (sd_logs s) (sd_refund s) (firstn id (sd_snaps s)) (sd_err s), RUnit).
   Proof.
-    intro Hid. simpl. unfold discard.
-    destruct (_ >? _)%Z eqn:G.
-    { exfalso. assert (G' : (discard_guard_lhs (Z.of_nat id) (Z.of_nat (length (sd_snaps s))) >?
-                             discard_guard_rhs (Z.of_nat id) (Z.of_nat (length (sd_snaps s))))%Z = false)
-        by (apply discard_guard_spec; lia). congruence. }
+    intros Hid Hmax. simpl. unfold discard.
+    rewrite discard_guard_ok by lia.
     rewrite discard_keep_spec, go_prefix_nat by lia. reflexivity.
   Qed.
 
   Theorem discard_invalid_panics s idx :
-    (Z.of_nat (length (sd_snaps s)) <= idx)%Z -> step s (ODiscard idx) = (s, RPanic).
+    (Z.of_nat (length (sd_snaps s)) <= idx < max_int64)%Z -> step s (ODiscard idx) = (s, RPanic).
   Proof.
-    intro Hge. simpl. unfold discard. destruct (_ >? _)%Z eqn:G; [reflexivity|].
-    apply discard_guard_spec in G. lia.
-  Qed.
-
-  (** A run-time fault (as opposed to the explicit panic) needs a negative index, and leaves the
-      state as it was; on a well-formed state no other operation faults. *)
-  Theorem fault_only_negative s o s' :
-    wf s -> step s o = (s', RFault) ->
-    s' = s /\ exists idx, (idx < 0)%Z /\ (o = ORevert idx \/ o = ODiscard idx).
-  Proof.
-    intros Hw E. destruct o; simpl in E;
-      try solve [unfold add_balance, sub_balance, suicide, sub_refund, do_snapshot in E;
-                 repeat match type of E with context [match ?x with _ => _ end] => destruct x end;
-                 inversion E].
-    - destruct (Z.ltb_spec idx 0) as [Hneg|Hpos].
-      + unfold revert in E. destruct (_ >? _)%Z; [inversion E|].
-        rewrite revert_index_spec in E. unfold go_index in E.
-        destruct (idx <? 0)%Z eqn:G; [|apply Z.ltb_ge in G; lia]. inversion E. split; eauto.
-      + exfalso. destruct (Z.ltb_spec idx (Z.of_nat (length (sd_snaps s)))) as [Hlt|Hge].
-        * assert (Hid : (Z.to_nat idx < length (sd_snaps s))%nat) by lia.
-          destruct (nth_error (sd_snaps s) (Z.to_nat idx)) as [sn|] eqn:En;
-            [|apply nth_error_None in En; lia].
-          pose proof (revert_result s _ sn Hw En) as R. rewrite Z2Nat.id in R by lia.
-          simpl in R. rewrite R in E. inversion E.
-        * pose proof (revert_invalid_panics s idx Hge) as R. simpl in R. rewrite R in E. inversion E.
-    - destruct (Z.ltb_spec idx 0) as [Hneg|Hpos].
-      + unfold discard in E. destruct (_ >? _)%Z; [inversion E|].
-        destruct (go_prefix _ _); inversion E. split; eauto.
-      + exfalso. destruct (Z.ltb_spec idx (Z.of_nat (length (sd_snaps s)))) as [Hlt|Hge].
-        * assert (Hid : (Z.to_nat idx < length (sd_snaps s))%nat) by lia.
-          pose proof (discard_result s _ Hid) as R. rewrite Z2Nat.id in R by lia.
-          simpl in R. rewrite R in E. inversion E.
-        * pose proof (discard_invalid_panics s idx Hge) as R. simpl in R. rewrite R in E. inversion E.
+    intro Hge. simpl. unfold discard. destruct (_ >? _)%Z eqn:G; [reflexivity|]. exfalso.
+    unfold discard_guard_lhs, discard_guard_rhs in G.
+    rewrite wrap_int64_small in G by (unfold max_int64 in *; lia).
+    rewrite Z.gtb_ltb in G. apply Z.ltb_ge in G. lia.
   Qed.
 
   (** A panic or fault leaves the state unchanged. *)
@@ -380,15 +358,45 @@ Section Proofs.
       destruct (go_prefix _ _); inversion E; subst; auto; destruct Hr; discriminate.
   Qed.
 
+  (** A Go run-time fault (as opposed to the explicit panic) needs an index that is negative or
+      not below the stack length (MaxInt64, where [idx+1] wraps, is the only such index that gets
+      past the guard); the state is left as it was. No other operation faults. *)
+  Theorem fault_only_out_of_range s o s' :
+    wf s -> (Z.of_nat (length (sd_snaps s)) < max_int64)%Z -> step s o = (s', RFault) ->
+    s' = s /\ exists idx, ((idx < 0)%Z \/ (Z.of_nat (length (sd_snaps s)) <= idx)%Z) /\
+                         (o = ORevert idx \/ o = ODiscard idx).
+  Proof.
+    intros Hw Hlen E. split; [eapply panic_keeps_state; eauto|].
+    destruct o; simpl in E;
+      try solve [unfold add_balance, sub_balance, suicide, sub_refund, do_snapshot in E;
+                 repeat match type of E with context [match ?x with _ => _ end] => destruct x end;
+                 inversion E].
+    - exists idx. split; [|auto].
+      destruct (Z.ltb_spec idx 0) as [Hneg|Hpos]; [auto|].
+      destruct (Z.ltb_spec idx (Z.of_nat (length (sd_snaps s)))) as [Hlt|Hge]; [|auto]. exfalso.
+      assert (Hid : (Z.to_nat idx < length (sd_snaps s))%nat) by lia.
+      destruct (nth_error (sd_snaps s) (Z.to_nat idx)) as [sn|] eqn:En; [|apply nth_error_None in En; lia].
+      assert (Hm : (Z.of_nat (Z.to_nat idx) < max_int64)%Z) by lia.
+      pose proof (revert_result s _ sn Hw En Hm) as R. rewrite Z2Nat.id in R by lia.
+      simpl in R. rewrite R in E. inversion E.
+    - exists idx. split; [|auto].
+      destruct (Z.ltb_spec idx 0) as [Hneg|Hpos]; [auto|].
+      destruct (Z.ltb_spec idx (Z.of_nat (length (sd_snaps s)))) as [Hlt|Hge]; [|auto]. exfalso.
+      assert (Hid : (Z.to_nat idx < length (sd_snaps s))%nat) by lia.
+      assert (Hm : (Z.of_nat (Z.to_nat idx) < max_int64)%Z) by lia.
+      pose proof (discard_result s _ Hid Hm) as R. rewrite Z2Nat.id in R by lia.
+      simpl in R. rewrite R in E. inversion E.
+  Qed.
+
   (** ** The property *)
   Theorem revert_restores s0 s1 id ops s3 r :
     wf s0 ->
-    step s0 OSnapshot = (s1, RInt id) ->
+    step s0 OSnapshot = (s1, RInt id) -> (id < max_int64)%Z ->
     stays_valid (Z.to_nat id) s1 ops = true ->
     step (run s1 ops) (ORevert id) = (s3, r) ->
     r = RUnit /\ core_of s3 = core_of s0 /\ sd_snaps s3 = sd_snaps s0.
   Proof.
-    intros Hw0 Esnap Hv Erev.
+    intros Hw0 Esnap Hmax Hv Erev.
     rewrite snapshot_result in Esnap. inversion Esnap as [[Es1 Eid]]. clear Esnap. subst id.
     set (n := length (sd_snaps s0)) in *.
     assert (Hw1 : wf s1).
@@ -400,7 +408,7 @@ Section Proofs.
     destruct (run_keeps ops s1 n _ Hw1 En Hv) as [Hw2 [K1 K2]].
     destruct (firstn_S_nth _ _ _ K1) as [A1 A2].
     rewrite En in A1.
-    rewrite (revert_result _ _ _ Hw2 A1) in Erev. inversion Erev as [[Es3 Er]].
+    rewrite (revert_result _ _ _ Hw2 A1 Hmax) in Erev. inversion Erev as [[Es3 Er]].
     split; [reflexivity|]. unfold core_of; simpl.
     simpl in K2. rewrite K2, A2, <- Es1. simpl.
     rewrite firstn_all. rewrite firstn_app_l by (unfold n; lia). unfold n. rewrite firstn_all.
@@ -473,15 +481,15 @@ Qed.
 Theorem revert_restores_full :
   forall (H : bytes -> bytes) (backend : memdb) (s0 s1 s3 : statedb) (id : Z) (ops : list op) (r : ret),
     reachable H backend s0 ->
-    step H backend s0 OSnapshot = (s1, RInt id) ->
+    step H backend s0 OSnapshot = (s1, RInt id) -> (id < max_int64)%Z ->
     stays_valid H backend (Z.to_nat id) s1 ops = true ->
     step H backend (run H backend s1 ops) (ORevert id) = (s3, r) ->
     r = RUnit /\
     (forall addr key, observe backend s3 addr key = observe backend s1 addr key) /\
     core_of s3 = core_of s0 /\ sd_snaps s3 = sd_snaps s0.
 Proof.
-  intros H backend s0 s1 s3 id ops r Hr Es Hv Er.
-  destruct (revert_restores H backend s0 s1 id ops s3 r (reachable_wf H backend s0 Hr) Es Hv Er) as [A [B C]].
+  intros H backend s0 s1 s3 id ops r Hr Es Hmax Hv Er.
+  destruct (revert_restores H backend s0 s1 id ops s3 r (reachable_wf H backend s0 Hr) Es Hmax Hv Er) as [A [B C]].
   split; [exact A|]. split; [|split; assumption].
   intros addr key. apply observe_core. rewrite B.
   rewrite snapshot_result in Es. inversion Es. reflexivity.
@@ -490,15 +498,15 @@ Qed.
 Theorem revert_restores_nested_full :
   forall (H : bytes -> bytes) (backend : memdb) (s0 s1 s3 : statedb) (id : Z) (ops : list op) (r : ret),
     reachable H backend s0 ->
-    step H backend s0 OSnapshot = (s1, RInt id) ->
+    step H backend s0 OSnapshot = (s1, RInt id) -> (id < max_int64)%Z ->
     forallb (above (Z.to_nat id)) ops = true ->
     step H backend (run H backend s1 ops) (ORevert id) = (s3, r) ->
     r = RUnit /\
     (forall addr key, observe backend s3 addr key = observe backend s1 addr key) /\
     core_of s3 = core_of s0 /\ sd_snaps s3 = sd_snaps s0.
 Proof.
-  intros H backend s0 s1 s3 id ops r Hr Es Ha Er.
-  apply (revert_restores_full H backend s0 s1 s3 id ops r Hr Es); [|exact Er].
+  intros H backend s0 s1 s3 id ops r Hr Es Hmax Ha Er.
+  apply (revert_restores_full H backend s0 s1 s3 id ops r Hr Es Hmax); [|exact Er].
   apply above_stays_valid; [exact Ha|].
   rewrite snapshot_result in Es. inversion Es. simpl. rewrite Nat2Z.id, app_length. simpl. lia.
 Qed.
@@ -510,13 +518,13 @@ Proof. intros. apply observe_core. apply discard_silent. Qed.
 
 Theorem revert_consumes_id_full :
   forall (H : bytes -> bytes) (backend : memdb) (s s' : statedb) (id : nat),
-    reachable H backend s -> (id < length (sd_snaps s))%nat ->
+    reachable H backend s -> (id < length (sd_snaps s))%nat -> (Z.of_nat id < max_int64)%Z ->
     step H backend s (ORevert (Z.of_nat id)) = (s', RUnit) ->
     length (sd_snaps s') = id /\ step H backend s' (ORevert (Z.of_nat id)) = (s', RPanic).
 Proof.
-  intros H backend s s' id Hr Hid E.
+  intros H backend s s' id Hr Hid Hmax E.
   destruct (nth_error (sd_snaps s) id) as [sn|] eqn:En; [|apply nth_error_None in En; lia].
-  rewrite (revert_result H backend s id sn (reachable_wf H backend s Hr) En) in E. inversion E.
+  rewrite (revert_result H backend s id sn (reachable_wf H backend s Hr) En Hmax) in E. inversion E.
   assert (L : length (firstn id (sd_snaps s)) = id) by (rewrite firstn_length; lia).
   split; [exact L|]. apply revert_invalid_panics. simpl. lia.
 Qed.
@@ -527,8 +535,10 @@ Theorem logs_slice_in_range_full :
     (sn_logsSize sn <= length (sd_logs s))%nat.
 Proof. intros H backend s i sn Hr. apply wf_logs_in_range. exact (reachable_wf H backend s Hr). Qed.
 
-Theorem fault_only_negative_full :
+Theorem fault_only_out_of_range_full :
   forall (H : bytes -> bytes) (backend : memdb) (s s' : statedb) (o : op),
-    reachable H backend s -> step H backend s o = (s', RFault) ->
-    s' = s /\ exists idx, (idx < 0)%Z /\ (o = ORevert idx \/ o = ODiscard idx).
-Proof. intros H backend s s' o Hr. apply fault_only_negative. exact (reachable_wf H backend s Hr). Qed.
+    reachable H backend s -> (Z.of_nat (length (sd_snaps s)) < max_int64)%Z ->
+    step H backend s o = (s', RFault) ->
+    s' = s /\ exists idx, ((idx < 0)%Z \/ (Z.of_nat (length (sd_snaps s)) <= idx)%Z) /\
+                         (o = ORevert idx \/ o = ODiscard idx).
+Proof. intros H backend s s' o Hr. apply fault_only_out_of_range. exact (reachable_wf H backend s Hr). Qed.
